@@ -80,7 +80,9 @@ how the rule establishes them (when one cannot be established the verdict is UND
  W3-restart-index      literal overwrites the time: unconditional, top level, after every set-up call.  Literal start index: the
                        loop bound is an absolute index.  Step != 1: only when index = time // step was established.
  W3-save-steps         congruences on the recognised forms; other conventions (both sites in another variable, same other
-                       residue) undecided.  One grid only: no helper receives the same label / folder, no new code called.
+                       residue) undecided.  A residue counter (c = ti % M before the loop, c += 1 per step, reset to 0 under
+                       c == M; every store of c / ti / M accounted for, no jump between the increments and the reset) is read
+                       as the residue it carries by the loop invariant (`_residue_counters`).  One grid only: no helper receives the same label / folder, no new code called.
                        Written from the other object: only when it is the object written under the other name.  Label: an
                        expression that does not read the time at all.
 """
@@ -1023,12 +1025,19 @@ def _append_loops_to_comprehensions(w):
 
 
 def _direct_io_to_assignments(w):
-    """np.copyto(X, Y) -> X[:] = Y;  D.read_direct(X, source_sel=S) -> X[:] = D[S];  D.write_direct(X, dest_sel=S) -> D[S] = X[:]
+    """np.copyto(X, Y) -> X[:] = Y;  X[...] = Y -> X[:] = Y;  D.read_direct(X, source_sel=S) -> X[:] = D[S];
+    D.write_direct(X, dest_sel=S) -> D[S] = X[:]
     (h5py: read_direct(dest, source_sel, dest_sel) / write_direct(source, source_sel, dest_sel); only the forms in which the
     array side is taken whole)"""
     full = lambda: ast.Slice(lower=None, upper=None, step=None)
     for owner, f, blk in list(_blocks_of(w)):
         for k, st in enumerate(blk):
+            if isinstance(st, ast.Assign) and len(st.targets) == 1 and isinstance(st.targets[0], ast.Subscript) \
+                    and _is_const(st.targets[0].slice, Ellipsis):
+                # X[...] = Y -> X[:] = Y: both store into the whole of X (the same for every array / dataset of one or more
+                # dimensions, the only ones a block selection applies to)
+                st.targets[0].slice = ast.copy_location(full(), st.targets[0].slice)
+                continue
             if not (isinstance(st, ast.Expr) and isinstance(st.value, ast.Call) and isinstance(st.value.func, ast.Attribute)):
                 continue
             c = st.value
@@ -1799,6 +1808,15 @@ def _reader_facts(fn, D):
         if isinstance(n, ast.expr) and not isinstance(parent(n), ast.expr):
             akeys.extend(_attr_reads(n))
         if isinstance(n, ast.Assign) and len(n.targets) == 1 and isinstance(n.targets[0], ast.Subscript) and \
+                isinstance(n.targets[0].value, ast.Name) and isinstance(D.resolve(n.value), ast.Subscript):
+            # the array was given a local name first (`dest = obj._f` ... `dest[:] = ...`): the name refers to the same array as
+            # long as the attribute is not assigned anew in this function - then the store is a store into the attribute's array
+            al = D.one(n.targets[0].value.id)
+            if isinstance(al, ast.Attribute) and al.attr == "_f" and isinstance(al.value, ast.Name) and not any(
+                    isinstance(x, ast.Attribute) and isinstance(x.ctx, ast.Store) and x.attr == "_f" for x in _own_walk(fn)) \
+                    and not any(_pos(al) < _pos(st_) < _pos(n) for v_, st_ in D.defs.get(al.value.id, [])):
+                n.targets[0].value = ast.copy_location(_clone(al), n.targets[0].value)
+        if isinstance(n, ast.Assign) and len(n.targets) == 1 and isinstance(n.targets[0], ast.Subscript) and \
                 isinstance(n.targets[0].value, ast.Attribute) and n.targets[0].value.attr == "_f" and isinstance(D.resolve(n.value), ast.Subscript):
             if not isinstance(n.value, ast.Subscript):
                 n.value = D.resolve(n.value)            # the block was given a name first: written out
@@ -2255,7 +2273,8 @@ def _grid_ctor_roles(chk):
     the current layout: read off `self.<attr> = <manager parameter>.getLayout(<layout parameter>)` in Grid.__init__
     -> {'attr': name, 'manager': (position, keyword), 'layout': (position, keyword)} or None"""
     try:
-        init = chk.mod(U.GRID).func("Grid.__init__")
+        # helper methods introduced by a refactoring (`self._useLayout(name)`) are written back into the constructor first
+        init = _work(chk.func(U.GRID, "Grid.__init__"), chk, U.GRID)
     except AnalysisError:
         return None
     ps = [a.arg for a in init.args.args]
@@ -2268,7 +2287,7 @@ def _grid_ctor_roles(chk):
             # the manager may have been stored on self first
             if isinstance(v, ast.Call) and _fname(v) == "getLayout" and isinstance(v.func, ast.Attribute) and len(v.args) == 1 and not v.keywords:
                 found.append((st.targets[0].attr, v.func.value, v.args[0]))
-    if len(found) != 1:
+    if not found:
         return None
     attr, mgr, name = found[0]
     stored = {}          # self.<x> = <parameter> at the top level of __init__
@@ -2283,8 +2302,11 @@ def _grid_ctor_roles(chk):
     pm, pl = param(mgr), param(name)
     if pm is None or pl is None:
         return None
-    # the attribute is not reassigned later in __init__
-    if sum(1 for n in ast.walk(init) if isinstance(n, ast.Attribute) and n.attr == attr and isinstance(n.ctx, ast.Store)) != 1:
+    # several top-level stores (the same assignment repeated by a helper written back) must all say the same
+    if any((a_, param(m_), param(n_)) != (attr, pm, pl) for a_, m_, n_ in found[1:]):
+        return None
+    # the attribute is not reassigned in any other way in __init__
+    if sum(1 for n in ast.walk(init) if isinstance(n, ast.Attribute) and n.attr == attr and isinstance(n.ctx, ast.Store)) != len(found):
         return None
     return {"attr": attr, "manager": pm, "layout": pl}
 
@@ -2462,10 +2484,33 @@ def _spec_text(fs):
 _PCT = re.compile(r"%(?:(%)|([-+ 0#]*)(\d*)(?:\.(\d+))?([sdif]))")
 
 
+_PATHLIB = ("Path", "PurePath", "PosixPath", "PurePosixPath")
+
+
+def _is_pathlib_expr(e):
+    """Path(...) or a chain of `/` rooted (on the left) at one: a pathlib path"""
+    while isinstance(e, ast.BinOp) and isinstance(e.op, ast.Div):
+        e = e.left
+    return isinstance(e, ast.Call) and _fname(e) in _PATHLIB and bool(e.args) and not e.keywords \
+        and not any(isinstance(a, ast.Starred) for a in e.args)
+
+
 def _template(e):
     """abstract value of a string-building expression: [('lit', text) | ('fld', source of the expression, format spec)] or None"""
     if isinstance(e, ast.Constant) and isinstance(e.value, str):
         return [("lit", e.value)]
+    if _is_pathlib_expr(e):
+        # pathlib: Path(a, b) / c names the file os.path.join(a, b, c) names (the text of the path, as open() / exists() use it)
+        parts = [e.left, e.right] if isinstance(e, ast.BinOp) else list(e.args)
+        out = []
+        for k, a in enumerate(parts):
+            t = _template(a)
+            if t is None:
+                return None
+            if k and not (out and out[-1][0] == "lit" and out[-1][1].endswith("/")):
+                out.append(("lit", "/"))
+            out.extend(t)
+        return _merge(out)
     if isinstance(e, ast.JoinedStr):
         out = []
         for p in e.values:
@@ -2557,6 +2602,8 @@ def _template(e):
                 inner = inner.args[0]
             return [("fld", src(inner), "0" + str(e.args[0].value))]
     if isinstance(e, ast.Call) and isinstance(e.func, ast.Name) and e.func.id == "str" and len(e.args) == 1:
+        if _is_pathlib_expr(e.args[0]):
+            return _template(e.args[0])
         return [("fld", src(e.args[0]), "")]
     if isinstance(e, (ast.Name, ast.Attribute, ast.Subscript, ast.Call)):
         return [("fld", src(e), "")]
@@ -4887,6 +4934,112 @@ def _mod_condition(test):
     return None
 
 
+def _residue_counters(fn, D, lp, TI, incs):
+    """locals that carry the residue of the step index by a loop invariant instead of recomputing `TI % M`:
+         c = TI % M  (once, before the loop);  c += 1 (once per iteration, top level);  if c == M: ...; c = 0  (top level, later)
+    -> {c: (M, k_inc, k_reset, k_index_inc)} (top-level positions in the loop body).  Invariant (M >= 1, as `TI % M` itself needs):
+    at the loop head, after the reset and after the loop  c == (TI [+1 / -1 when only one of the two was incremented yet]) % M;
+    between its increment and its reset  1 <= c <= M and  c == M  iff  that residue is 0.
+    # ASSUMPTION (checked below): every store of c, TI and M in the function is one of the statements named above; both
+    # increments add the literal 1 unconditionally; nothing leaves the iteration between the first of these statements and the
+    # last (break / continue / return), so the two counters advance together and the reset is never skipped."""
+    out = {}
+    if TI not in incs or len(incs[TI]) != 1 or not _is_const(incs[TI][0][1], 1):
+        return out
+    stores = {}
+    for n in ast.walk(fn):
+        if isinstance(n, ast.Name) and isinstance(n.ctx, (ast.Store, ast.Del)):
+            stores.setdefault(n.id, []).append(n)
+        elif isinstance(n, (ast.Global, ast.Nonlocal)):
+            for nm in n.names:
+                stores.setdefault(nm, []).append(n)
+    in_lp = {id(x) for x in ast.walk(lp)}
+    if sum(1 for n in stores.get(TI, []) if id(n) in in_lp) != 1:
+        return out
+    k_ti = incs[TI][0][0]
+    jumps = (ast.Break, ast.Continue, ast.Return)
+    for nm, lst in incs.items():
+        if nm == TI or len(lst) != 1 or not _is_const(lst[0][1], 1):
+            continue
+        ds = D.defs.get(nm, [])
+        if len(ds) != 3 or len(stores.get(nm, [])) != 3 or nm in D.params:
+            continue
+        init = [d for d in ds if _pos(d[1]) < _pos(lp) and any(d[1] is x for x in fn.body)]
+        if len(init) != 1:
+            continue
+        v = init[0][0]
+        if not (isinstance(v, ast.BinOp) and isinstance(v.op, ast.Mod) and isinstance(v.left, ast.Name) and v.left.id == TI
+                and isinstance(v.right, ast.Name)):
+            continue
+        M = v.right.id
+        if M in (nm, TI) or M in D.params or any(_pos(n) > _pos(init[0][1]) for n in stores.get(M, [])):
+            continue                # the modulus may change after the counter was started
+        if any(_pos(init[0][1]) < _pos(n) < _pos(lp) for n in stores.get(TI, [])):
+            continue                # the index is assigned between the start of the counter and the loop
+        k_c = lst[0][0]
+        reset = None
+        for k, st in enumerate(lp.body):
+            if k > k_c and isinstance(st, ast.If):
+                zs = [x for x in st.body if isinstance(x, ast.Assign) and len(x.targets) == 1 and isinstance(x.targets[0], ast.Name)
+                      and x.targets[0].id == nm and _is_const(x.value, 0) and not isinstance(x.value.value, bool)]
+                if len(zs) == 1:
+                    reset = (k, st)
+        if reset is None or not any(reset[1] is x for x in lp.body):
+            continue
+        k_r, rif = reset
+        t = rif.test
+        full = isinstance(t, ast.Compare) and len(t.ops) == 1 and (
+            (isinstance(t.ops[0], (ast.Eq, ast.GtE)) and src(t.left) == nm and src(t.comparators[0]) == M)
+            or (isinstance(t.ops[0], (ast.Eq, ast.LtE)) and src(t.left) == M and src(t.comparators[0]) == nm))
+        if not full:
+            continue
+        lo, hi = min(k_c, k_ti), max(k_c, k_ti, k_r)
+        if any(isinstance(x, jumps) for st in lp.body[lo:hi + 1] for x in ast.walk(st)):
+            continue
+        out[nm] = (M, k_c, k_r, k_ti)
+    return out
+
+
+class _ResidueCounter(ast.NodeTransformer):
+    """a test that reads a residue counter (see _residue_counters), rewritten on the step index; `at` = top-level position in the
+    loop body of the statement that evaluates the test (None: after the loop)"""
+    def __init__(self, residues, TI, at):
+        self.res, self.TI, self.at = residues, TI, at
+
+    def _residue(self, nm, like):
+        M, k_c, k_r, k_ti = self.res[nm]
+        d = 0
+        if self.at is not None:
+            d = int(k_c < self.at) - int(k_ti < self.at)
+        left = ast.Name(id=self.TI, ctx=ast.Load())
+        if d:
+            left = ast.BinOp(left=left, op=ast.Add() if d > 0 else ast.Sub(), right=ast.Constant(value=1))
+        new = ast.BinOp(left=left, op=ast.Mod(), right=ast.Name(id=M, ctx=ast.Load()))
+        for x in ast.walk(new):
+            ast.copy_location(x, like)
+        return new
+
+    def _exact(self, nm):
+        M, k_c, k_r, k_ti = self.res[nm]
+        return self.at is None or self.at <= k_c or self.at > k_r
+
+    def visit_Compare(self, node):
+        if len(node.ops) == 1:
+            a, b, op = node.left, node.comparators[0], node.ops[0]
+            for x, y, ops in ((a, b, (ast.Eq, ast.GtE)), (b, a, (ast.Eq, ast.LtE))):
+                if isinstance(x, ast.Name) and x.id in self.res and not self._exact(x.id) and isinstance(op, ops) \
+                        and isinstance(y, ast.Name) and y.id == self.res[x.id][0]:
+                    # between increment and reset: the counter is full exactly when the residue is 0
+                    return ast.copy_location(ast.Compare(left=self._residue(x.id, node), ops=[ast.Eq()],
+                                                         comparators=[ast.copy_location(ast.Constant(value=0), node)]), node)
+        return self.generic_visit(node)
+
+    def visit_Name(self, node):
+        if isinstance(node.ctx, ast.Load) and node.id in self.res and self._exact(node.id):
+            return self._residue(node.id, node)
+        return node
+
+
 def _save_steps(fn, D, lp, TI, incs, writes):
     """the two save conditions as congruences on the global step index -> (ok, bad)"""
     # a local is written out only when its value is still the same where the test is evaluated: not when it mentions something
@@ -4923,11 +5076,21 @@ def _save_steps(fn, D, lp, TI, incs, writes):
                 return ast.copy_location(ast.Name(id=nm, ctx=ast.Load()), node)
             return node
 
+    residues = _residue_counters(fn, D, lp, TI, incs)
+
+    def top_index(c):
+        st = c
+        while parent(st) is not lp:
+            st = parent(st)
+        return lp.body.index(st)
+
     def site_test(c, stop):
         gs = guards_of(c, stop=stop)
         if len(gs) != 1 or gs[0][2] != "if":
             return None
         t = Since().visit(D.resolve(gs[0][0], only=stable_at(gs[0][0])))
+        if residues:
+            t = _ResidueCounter(residues, TI, top_index(c) if stop is lp else None).visit(t)
         if not gs[0][1]:
             t = ast.UnaryOp(op=ast.Not(), operand=t)
         return t
@@ -4935,12 +5098,6 @@ def _save_steps(fn, D, lp, TI, incs, writes):
     after = [c for c in writes if _pos(c) > _pos(lp) and not any(c is x for x in in_loop)]
     if not in_loop or not after:
         return None, None
-
-    def top_index(c):
-        st = c
-        while parent(st) is not lp:
-            st = parent(st)
-        return lp.body.index(st)
     # every in-loop write must be on the same side of the index increment (and of nothing else that the test reads)
     sides = {incs[TI][0][0] > top_index(c) for c in in_loop} if TI in incs else set()
     if len(sides) != 1:
